@@ -66,6 +66,9 @@ type dbRun struct {
 	cur           int                 // transaction index of the Commit in progress
 	commitLogged  bool
 	txOffset      int // model numbering of transactions keeps counting across reopen
+
+	pauseParked chan struct{} // op inflight: closed by the committer when it has its timestamp (hook commit.ts) …
+	pauseResume chan struct{} // … where it waits for this one
 }
 
 func (r *dbRun) log(op, res string) {
@@ -149,7 +152,14 @@ func (r *dbRun) event(name string, args ...any) {
 		r.mu.Lock()
 		r.log(fmt.Sprintf("commit %d", r.curTxn()), fmt.Sprintf("ok %d", args[0].(uint64)))
 		r.commitLogged = true
+		pp, pr := r.pauseParked, r.pauseResume
+		r.pauseParked, r.pauseResume = nil, nil
 		r.mu.Unlock()
+		if pp != nil {
+			// the commit is in flight: timestamp assigned (commitMark begun), nothing applied yet
+			close(pp)
+			<-pr
+		}
 	case "commit.conflict":
 		r.mu.Lock()
 		r.log(fmt.Sprintf("commit %d", r.curTxn()), "conflict")
@@ -440,6 +450,91 @@ func dbExec(ops []string) (dops []string, res []string) {
 			if r.db.State() != originium.StateClosed {
 				r.syncMarks()
 			}
+		case "inflight":
+			// inflight <txn> <key>: Commit of <txn> is held right after it got its timestamp; meanwhile another goroutine
+			// begins a read-only transaction and reads <key>.  Begin must wait for the commit in flight (its read timestamp is
+			// the commit's): it may not return before the commit is released.
+			i, _ := strconv.Atoi(t[1])
+			if i >= len(txns) || finished[i] {
+				continue
+			}
+			key := string(unhx(t[2]))
+			parked, resume := make(chan struct{}), make(chan struct{})
+			r.mu.Lock()
+			r.cur = i
+			r.commitLogged = false
+			r.pauseParked, r.pauseResume = parked, resume
+			r.mu.Unlock()
+			var cerr error
+			cdone := make(chan struct{})
+			go func() {
+				defer close(cdone)
+				defer func() { _ = recover() }()
+				cerr = txns[i].Commit()
+			}()
+			inCommit := false
+			select {
+			case <-parked:
+				inCommit = true
+			case <-cdone:
+			case <-time.After(20 * time.Second):
+				panic("HANG: Commit did not reach its timestamp within 20 s\n" + allStacks())
+			}
+			r.mu.Lock()
+			r.pauseParked, r.pauseResume = nil, nil
+			r.mu.Unlock()
+			var rtx *originium.Txn
+			var v []byte
+			var found bool
+			early := false
+			bdone := make(chan struct{})
+			go func() {
+				defer close(bdone)
+				defer func() { _ = recover() }()
+				rtx = r.db.Begin(false)
+				v, found = rtx.Get(key)
+			}()
+			if inCommit {
+				select {
+				case <-bdone:
+					early = true
+				case <-time.After(40 * time.Millisecond):
+				}
+				close(resume)
+			}
+			r.call(func() { <-cdone; <-bdone })
+			finished[i] = true
+			r.mu.Lock()
+			if !r.commitLogged {
+				r.log(fmt.Sprintf("commit %d", i), errName(cerr))
+			} else if cerr != nil && cerr != originium.ErrConflictTxn {
+				r.log("commit-return", errName(cerr))
+			}
+			r.mu.Unlock()
+			if rtx != nil {
+				idx := len(txns)
+				txns = append(txns, rtx)
+				finished = append(finished, false)
+				out := "nf"
+				if found {
+					out = hx(v)
+				}
+				r.mu.Lock()
+				r.log("begin 0", strconv.FormatUint(rtx.VerifReadTs(), 10))
+				r.log(fmt.Sprintf("get %d %s", idx, t[2]), out)
+				if early {
+					r.log("expectok Begin waits for the commit in flight", "SPEC-VIOLATION: Begin and Get of a read-only transaction returned while the commit that owns its read timestamp was still being applied")
+				} else {
+					r.log("expectok Begin waits for the commit in flight", "ok")
+				}
+				r.log(fmt.Sprintf("discard %d", idx), "ok")
+				r.mu.Unlock()
+				rtx.Discard()
+				finished[idx] = true
+			}
+			if r.db.State() != originium.StateClosed {
+				r.syncMarks()
+			}
 		case "upd":
 			// upd <ok|err|panic> <key> <value>: DB.Update with a closure that sets one key and then returns nil, returns an
 			// error, or panics; in the model: begin, set, then commit (ok) or discard (err, panic: the deferred Discard)
@@ -664,6 +759,15 @@ func dbGen(r *rand.Rand, n int, length int, withReopen bool) []Case {
 					}
 					tags["finished-txn-misuse"] = true
 				}
+			case x < 81 && len(ot) > 0:
+				// a reader beginning while a commit is in flight
+				t := ot[r.Intn(len(ot))]
+				ops = append(ops, fmt.Sprintf("inflight %d %s", t.idx, hxs(pickKey(r, nk))))
+				t.open = false
+				rd := &tx{idx: nextIdx, update: false, open: false}
+				nextIdx++
+				txs = append(txs, rd)
+				tags["begin-during-commit"] = true
 			case x < 83:
 				// DB.Update with a closure that succeeds, fails or panics
 				mode := []string{"ok", "err", "panic"}[r.Intn(3)]
